@@ -173,3 +173,40 @@ pub fn eight_inv() -> U320 {
     }
     U320(l)
 }
+
+/// A pair (x, y) with delta(x) + delta(y) = 0 and delta(x) != 0, where
+/// delta(f) = f(f-1)(f-2)(f-3): two quad residuals that cancel when they are
+/// (wrongly) given the same weight. With u = f - 3/2 and p = u^2 - 5/4,
+/// delta = p^2 - 1, so the pairs are the points of the conic p^2 + q^2 = 2
+/// whose coordinates shifted by 5/4 are squares. `k` selects the k-th such pair.
+pub fn cancelling_quads(k: usize) -> (Fe, Fe) {
+    let half = inv(fe(2));
+    let c54 = fe(5) * inv(fe(4));
+    let mut found = 0;
+    let mut t = one();
+    loop {
+        t += one();
+        let den = one() + t * t;
+        if den == zero() {
+            continue;
+        }
+        let s = -(fe(2) * (one() + t)) * inv(den);
+        let p = one() + s;
+        let q = one() + t * s;
+        if p * p == one() || q * q == one() {
+            continue;
+        }
+        let ux: Option<Fe> = (p + c54).sqrt().into();
+        let uy: Option<Fe> = (q + c54).sqrt().into();
+        if let (Some(ux), Some(uy)) = (ux, uy) {
+            if found == k {
+                let x = fe(3) * half + ux;
+                let y = fe(3) * half + uy;
+                let d = |f: Fe| f * (f - fe(1)) * (f - fe(2)) * (f - fe(3));
+                assert!(d(x) + d(y) == zero() && d(x) != zero());
+                return (x, y);
+            }
+            found += 1;
+        }
+    }
+}
